@@ -293,6 +293,36 @@ with setlock_f (b : bool) (f : forest) : forest :=
   | FSub k t r => FSub k (setlock_t b t) (setlock_f b r)
   end.
 
+(* names setter (_td.py::names.setter / _rename_subtds): all-None erases the names of the node and of its DIRECT nested
+   tensordicts only; otherwise every nested tensordict gets the new names followed by its own names for its extra dims *)
+Definition all_none (l : list (option string)) : bool := forallb (fun x => match x with None => true | Some _ => false end) l.
+Definition with_names (m : nmeta) (n : list (option string)) : nmeta :=
+  {| m_bs := m_bs m; m_names := n; m_dev := m_dev m; m_locked := m_locked m |}.
+Definition erase_names (t : tree) : tree := match t with Node m f => Node (with_names m (repeat None (List.length (m_bs m)))) f end.
+Fixpoint erase_sub_names (f : forest) : forest :=
+  match f with
+  | FNil => FNil
+  | FLeaf k l v r => FLeaf k l v (erase_sub_names r)
+  | FNonT k p bs r => FNonT k p bs (erase_sub_names r)
+  | FSub k t r => FSub k (erase_names t) (erase_sub_names r)
+  end.
+Fixpoint set_names_t (names : list (option string)) (t : tree) : tree :=
+  match t with
+  | Node m f =>
+      if all_none names then Node (with_names m (repeat None (List.length (m_bs m)))) (erase_sub_names f)
+      else Node (with_names m names) (set_names_f names f)
+  end
+with set_names_f (names : list (option string)) (f : forest) : forest :=
+  match f with
+  | FNil => FNil
+  | FLeaf k l v r => FLeaf k l v (set_names_f names r)
+  | FNonT k p bs r => FNonT k p bs (set_names_f names r)
+  | FSub k t r => FSub k (set_names_t (names ++ skipn (List.length names) (m_names (meta t))) t) (set_names_f names r)
+  end.
+(* a nested tensordict written into a named one is refined with the parent's names (_validate_value) *)
+Definition adopt_names (m : nmeta) (s : tree) : tree :=
+  if all_none (m_names m) then s else set_names_t (m_names m ++ skipn (List.length (m_names m)) (m_names (meta s))) s.
+
 Inductive op :=
 | OSet (path : list string) (k : string) (l : leaf)          (* td[path][k] = new tensor (binds a new object) *)
 | OWrite (path : list string) (k : string) (b : list Z)      (* set_ / copy_ / update_: in place *)
@@ -322,15 +352,15 @@ Definition step_tree (t : tree) (o : op) : option (tree * option nat) :=
           no_w (if m_locked m || negb (has_key f k) || has_key f k' then None
                 else match take_key f k k' with Some e => Some (Node m (fapp (del_key f k) e)) | None => None end) end) false t
   | ONewSub path k s =>
-      at_path path (fun _ t => match t with Node m f => no_w (if m_locked m then None else Some (Node m (put_sub f k s))) end) false t
+      at_path path (fun _ t => match t with Node m f =>
+          no_w (if m_locked m then None else Some (Node m (put_sub f k (adopt_names m s)))) end) false t
   | OLock path => at_path path (fun _ t => no_w (Some (setlock_t true t))) false t
   | OUnlock path =>
       (* "Cannot unlock a tensordict that is part of a locked graph": a locked strict ancestor *)
       at_path path (fun anc t => no_w (if anc then None else Some (setlock_t false t))) false t
   | ONames names =>
       match t with Node m f =>
-        no_w (if List.length names =? List.length (m_bs m)
-              then Some (Node {| m_bs := m_bs m; m_names := names; m_dev := m_dev m; m_locked := m_locked m |} f) else None) end
+        no_w (if List.length names =? List.length (m_bs m) then Some (set_names_t names t) else None) end
   | OConsolidate _ => Some (t, None)
   end.
 
@@ -351,6 +381,27 @@ Definition step (st : cstate) (o : op) : cstate * bool :=
 Definition run (st : cstate) (ops : list op) : cstate := fold_left (fun s o => fst (step s o)) ops st.
 
 (* ---------------------------------------------------------------- what the property compares *)
+(* lookups by key / by path (first binding; keys are unique in a real tensordict) *)
+Fixpoint find_leaf (f : forest) (k : string) : option leaf :=
+  match f with
+  | FNil => None
+  | FLeaf k' l _ r => if String.eqb k k' then Some l else find_leaf r k
+  | FNonT k' _ _ r | FSub k' _ r => if String.eqb k k' then None else find_leaf r k
+  end.
+Fixpoint find_sub (f : forest) (k : string) : option tree :=
+  match f with
+  | FNil => None
+  | FSub k' t r => if String.eqb k k' then Some t else find_sub r k
+  | FLeaf k' _ _ r | FNonT k' _ _ r => if String.eqb k k' then None else find_sub r k
+  end.
+Fixpoint sub_at (t : tree) (path : list string) : option tree :=
+  match path with
+  | [] => Some t
+  | k :: p => match find_sub (ents t) k with Some t' => sub_at t' p | None => None end
+  end.
+Definition leaf_at (t : tree) (path : list string) (k : string) : option leaf :=
+  match sub_at t path with Some n => find_leaf (ents n) k | None => None end.
+
 (* a tree without the view flags *)
 Fixpoint unview_t (t : tree) : tree := match t with Node m f => Node m (unview_f f) end
 with unview_f (f : forest) : forest :=
